@@ -251,6 +251,11 @@ func (ex *Exec) eval1(e *Expr, env *Env) Val {
 				}
 			}
 		}
+		if !strings.HasPrefix(e.Name, "$") {
+			if p, ok := ex.tryLoc(e, env); ok {
+				return ex.loadField(p)
+			}
+		}
 		x := ex.eval1(e.Args[0], env)
 		if strings.HasPrefix(e.Name, "$") {
 			return ex.ghostRead(x, e.Name)
@@ -334,9 +339,16 @@ func (ex *Exec) eval1(e *Expr, env *Env) Val {
 				ex.assume(s)
 			}
 		}
-		if len(keep) > 0 {
-			// type facts about terms under the binder hold for every instance
-			ex.assume(ts.Forall(bs, ts.And(keep...)))
+		// type facts about terms under the binder (ranges, slice shape) are dropped: they are true but only slow the
+		// solvers down; spec-function definitions instantiated under the binder are kept
+		var defs []*Term
+		for _, k := range keep {
+			if k.Op == "=" && (k.Args[0].Op == "app" || k.Args[1].Op == "app") {
+				defs = append(defs, k)
+			}
+		}
+		if len(defs) > 0 {
+			ex.assume(ts.Forall(bs, ts.And(defs...)))
 		}
 		if e.Op == "forall" {
 			return ex.boolV(ts.Forall(bs, body))
@@ -958,4 +970,79 @@ func (ex *Exec) globalImmutable(name string) bool {
 		return true
 	}
 	return false
+}
+
+
+// tryLoc resolves x[i].f.g style expressions to a pointer without loading the enclosing aggregates.
+func (ex *Exec) tryLoc(e *Expr, env *Env) (p Val, ok bool) {
+	defer func() {
+		if r := recover(); r != nil {
+			if _, isU := r.(unsupported); isU {
+				p, ok = nil, false
+				return
+			}
+			panic(r)
+		}
+	}()
+	switch e.K {
+	case EIndex:
+		base := ex.eval1(e.Args[0], env)
+		if iv, isI := base.(IfaceV); isI && iv.Dyn != nil {
+			base = iv.Dyn
+		}
+		s, isSlice := base.(SliceV)
+		if !isSlice {
+			return nil, false
+		}
+		if _, isStruct := under(s.Elem).(*types.Struct); !isStruct {
+			return nil, false
+		}
+		iv := ex.eval1(e.Args[1], env)
+		sc, isS := iv.(Scalar)
+		if !isS {
+			return nil, false
+		}
+		var it *Term
+		if sc.T == nil {
+			it = ex.constTerm(sc.Const, nil)
+		} else {
+			it = ex.toIdx(sc, sc.Typ)
+		}
+		return ex.elemPtr(s, it), true
+	case ESel:
+		if strings.HasPrefix(e.Name, "$") {
+			return nil, false
+		}
+		inner := e.Args[0]
+		if inner.K != EIndex && inner.K != ESel {
+			return nil, false
+		}
+		bp, ok := ex.tryLoc(inner, env)
+		if !ok {
+			return nil, false
+		}
+		l := ex.resolve(bp)
+		if l.Kind == LCell {
+			return nil, false
+		}
+		st, isStruct := under(l.Typ).(*types.Struct)
+		if !isStruct {
+			return nil, false
+		}
+		path, _, found := fieldIndex(l.Typ, e.Name)
+		if !found || len(path) != 1 {
+			return nil, false
+		}
+		return ex.fieldAddr(bp, st, path[0], l.Typ), true
+	}
+	return nil, false
+}
+
+func (ex *Exec) loadField(p Val) Val {
+	if rp, ok := p.(RefPtr); ok {
+		if at, isArr := under(rp.Elem).(*types.Array); isArr {
+			return ArrayLoc{Ref: rp.Ref, N: at.Len(), Elem: at.Elem()}
+		}
+	}
+	return ex.load(p)
 }
